@@ -62,6 +62,22 @@ func c22ParamArgs(cs *core.CallSite, g *core.FuncInfo) map[*types.Var]ast.Expr {
 // function that compares the receiving parameter with nil (bounded depth)?
 func c22NilTested(f *core.FuncInfo, isVal func(ast.Expr) bool, depth int) bool {
 	found := false
+	// branch conditions in normal form: if / for conditions and the cases of a tagged switch
+	// (`switch v { case nil: … }` is the test v == nil, as the CFG sees it)
+	for _, b := range f.CFG().Blocks {
+		cond := f.BranchCond(b)
+		if cond == nil || found {
+			continue
+		}
+		for _, alt := range core.Disjuncts(cond, true) {
+			for _, ft := range alt {
+				if x, _, ok := c22NilCmp(f.Info(), ft); ok && isVal(x) {
+					found = true
+				}
+			}
+		}
+	}
+	// comparisons outside branch conditions (a returned or stored boolean)
 	f.InspectOwn(func(nd ast.Node) bool {
 		if found {
 			return false
